@@ -397,7 +397,7 @@ theorem checkIds_none (f : Nat → Option Err) (ids : List Nat) (h : checkIds f 
 omit [DecidableEq V] in
 theorem addVectors_good (s s' : State K V) (b : Nat) (ids : List Nat) (g : Good s)
     (h : addVectors s b ids = .ok s') : Good s' := by
-  unfold addVectors at h
+  unfold addVectors addVectorsOf at h
   split at h
   · cases h
   · split at h
@@ -415,7 +415,7 @@ theorem addVectors_good (s s' : State K V) (b : Nat) (ids : List Nat) (g : Good 
           subst hia
           have hb := Good.snap_lt s g _ snap hs
           have : snap.hasObj i = true := by
-            have := checkIds_none _ ids hchk i hi
+            have := checkIds_none _ _ hchk i hi
             cases hh : snap.hasObj i with
             | true => rfl
             | false => simp [hh] at this
@@ -424,7 +424,7 @@ theorem addVectors_good (s s' : State K V) (b : Nat) (ids : List Nat) (g : Good 
 omit [DecidableEq V] in
 theorem deleteVectors_good (s s' : State K V) (b : Nat) (ids : List Nat) (g : Good s)
     (h : deleteVectors s b ids = .ok s') : Good s' := by
-  unfold deleteVectors at h
+  unfold deleteVectors deleteVectorsOf at h
   opsplit h
   apply Good.commit_self s g
   intro a ha
